@@ -1,10 +1,9 @@
 (** C16 - all adder variants agree with a plain number for Store / Reset /
-    SumAndReset.  Property theorems only.  (The striped adders' part of this
-    property - sequential use and use between finished concurrent phases with
-    a grown table - is in Adder/StripedSeq.v when present; see DESIGN.md.) *)
+    SumAndReset.  Property theorems only. *)
 From Coq Require Import List ZArith.
 From Garr Require Import Conc.Conc Conc.Lin Pure.F64 Adder.StripedModel Adder.SimpleModel Adder.AdderSpec.
 From Garr Require Import Adder.SimpleMutex Adder.SimpleAtomic.
+From Garr Require Import Adder.StripedInv Adder.StripedPhase Adder.StripedSeq Adder.StripedC16.
 Import ListNotations.
 Local Open Scope Z_scope.
 
@@ -26,3 +25,41 @@ Theorem C16_atomic_f64_adder : forall progs sched, no_sar progs ->
   lin_ok atomic_f64_adder aret_eqb (counter_spec Z.add) tlp 0 tt 0 progs sched = true.
 Proof. exact atomic_f64_adder_linearizable. Qed.
 Print Assumptions C16_atomic_adder.
+
+(** JDKAdder / JDKF64Adder.  [reach16] = the states reachable by ANY alternation
+    of (a) single-goroutine phases over the whole API and (b) concurrent
+    phases of Add/Inc/Dec calls that have all returned - however much the
+    table has grown; [v] is the plain number those phases compute.  From
+    every such state a single goroutine using any operations (Sum, Store,
+    Reset, SumAndReset, updates) gets exactly the results of the plain number
+    [v].  (Store does NOT preserve the full concurrent invariant: the old
+    arrays keep their old cells - [store_breaks_Glob] in Adder/StripedC16.v is
+    the concrete witness, which is exactly why Store/Reset are documented as
+    unsafe under concurrency; the weaker predicate [Good] that forgets
+    unreachable arrays is preserved and suffices for the next concurrent
+    phase.) *)
+Theorem C16_jdk_adder : forall f64 maxcells s v ops m c e,
+  reach16 wrap64 wadd f64 maxcells s v -> Forall (op_ok wrap64) ops ->
+  run (striped wadd f64 maxcells) (Config s [mk_thread apc tt ops]) (repeat 0%nat m) = (c, e) ->
+  all_done c ->
+  rets e = snd (spec_run wadd v ops).
+Proof. exact striped_C16_wadd. Qed.
+Theorem C16_jdk_f64_adder : forall f64 maxcells s v ops m c e,
+  reach16 (fun z => z) Z.add f64 maxcells s v ->
+  run (striped Z.add f64 maxcells) (Config s [mk_thread apc tt ops]) (repeat 0%nat m) = (c, e) ->
+  all_done c ->
+  rets e = snd (spec_run Z.add v ops).
+Proof. exact striped_C16_exact. Qed.
+
+(** and every such call sequence terminates with the number in place *)
+Theorem C16_jdk_adder_sequential : forall f64 maxcells ops s,
+  Good wrap64 s -> a_busy s = 0 -> Forall (op_ok wrap64) ops ->
+  exists n, forall m, (n <= m)%nat ->
+    let '(c, e) := run (striped wadd f64 maxcells) (Config s [mk_thread apc tt ops]) (repeat 0%nat m) in
+    rets e = snd (spec_run wadd (value wrap64 s) ops) /\
+    Good wrap64 (c_sh c) /\ a_busy (c_sh c) = 0 /\
+    value wrap64 (c_sh c) = fst (spec_run wadd (value wrap64 s) ops).
+Proof. exact striped_sequential_number_wadd. Qed.
+Print Assumptions C16_jdk_adder.
+Print Assumptions C16_jdk_f64_adder.
+Print Assumptions C16_jdk_adder_sequential.
